@@ -580,6 +580,12 @@ func runC14(a *args) error {
 		for i := 0; i < restarts; i++ {
 			cases = append(cases, c14Case{Mode: "restart", Script: genC14Script(r.fork(), i%3 != 2)})
 		}
+		// a member that is down while a dataset is deleted and the others compact their logs: it is brought up to date by
+		// a snapshot (of the emptied catalogue, or of a catalogue that holds another dataset by then)
+		cases = append(cases, c14Case{Mode: "lagging", Cut: 0})
+		if a.tier == "thorough" {
+			cases = append(cases, c14Case{Mode: "lagging", Cut: 1})
+		}
 		for len(cases) < a.n {
 			l := genC14Log(r.fork(), maxLen)
 			cut := r.intn(len(l) + 1)
@@ -611,6 +617,26 @@ func runC14(a *args) error {
 	}
 	for i := range cases {
 		c := &cases[i]
+		if c.Mode == "lagging" {
+			if a.replay == "" {
+				cst, crashed, tail := runIsolated("C14", *c, a, i)
+				if crashed {
+					st.ImplFailures = append(st.ImplFailures, implFailure{Case: i, What: "a server process died in the lagging-member history: " + tail, Key: "lagging-process-crash", Input: *c})
+				} else {
+					for _, f := range cst.ImplFailures {
+						f.Case = i
+						st.ImplFailures = append(st.ImplFailures, f)
+					}
+					for k, v := range cst.Distribution {
+						st.Distribution[k] += v
+					}
+				}
+			} else {
+				runC14Lagging(c, st, i, a.out)
+			}
+			st.count("lagging")
+			continue
+		}
 		if c.Mode == "restart" {
 			if a.replay == "" {
 				// a server that cannot start panics or exits: run it in a child process
@@ -674,4 +700,147 @@ func runC14(a *args) error {
 		return err
 	}
 	return writeJSON(a.out+"/stats.json", st)
+}
+
+// runC14Lagging: three real servers; dataset A is created and listed everywhere; member 3 stops; A is deleted (acknowledged
+// by the two others); [Cut = 1: dataset B is created;] members 1 and 2 snapshot and compact the zero group's log; [Cut = 0:
+// B is created now;] member 3 starts again and is brought up to date by the leader's snapshot.  Every member must list
+// exactly B, and member 3 must not serve A's partitions.
+func runC14Lagging(c *c14Case, st *stats, idx int, scratch string) {
+	fail := func(what, key string) {
+		st.ImplFailures = append(st.ImplFailures, implFailure{Case: idx, What: what, Key: key, Input: *c})
+	}
+	w := &c20World{net: &c20Net{byAddr: map[string]*anndb.Server{}, byId: map[uint64]*anndb.Server{}, cut: map[uint64]bool{}},
+		nodes: map[int]*c20Node{}, dir: filepath.Join(scratch, fmt.Sprintf("c14lag_%d", idx)), members: map[int]bool{}}
+	os.RemoveAll(w.dir)
+	defer os.RemoveAll(w.dir)
+	defer func() {
+		for _, n := range w.nodes {
+			if n.srv != nil {
+				w.stop(n)
+			}
+		}
+	}()
+	for i := 1; i <= 3; i++ {
+		n := &c20Node{id: i, dir: filepath.Join(w.dir, fmt.Sprint(i)), port: freePort()}
+		os.MkdirAll(n.dir, 0755)
+		w.nodes[i] = n
+	}
+	if err := w.start(w.nodes[1], false); err != nil {
+		st.count("lagging:setup-failed")
+		return
+	}
+	w.members[1] = true
+	if !w.settle(15 * time.Second) {
+		st.count("lagging:setup-failed")
+		return
+	}
+	for i := 2; i <= 3; i++ {
+		w.nodes[i].join = []string{w.nodes[1].addr()}
+		if err := w.start(w.nodes[i], true); err != nil {
+			st.count("lagging:setup-failed")
+			return
+		}
+		w.members[i] = true
+		w.settle(10 * time.Second)
+	}
+	lists := func(n *c20Node) string {
+		var ids []string
+		for _, m := range listServer(n.srv) {
+			ids = append(ids, m.Id)
+		}
+		sort.Strings(ids)
+		return strings.Join(ids, ",")
+	}
+	waitAll := func(want string, nodes ...int) bool {
+		deadline := time.Now().Add(12 * time.Second)
+		for time.Now().Before(deadline) {
+			ok := true
+			for _, i := range nodes {
+				if w.nodes[i].srv == nil || lists(w.nodes[i]) != want {
+					ok = false
+				}
+			}
+			if ok {
+				return true
+			}
+			time.Sleep(50 * time.Millisecond)
+		}
+		return false
+	}
+	create := func(dim uint32) (string, []string, bool) {
+		l := w.leader()
+		if l == nil {
+			return "", nil, false
+		}
+		d, err := l.srv.VerifDatasetManager().Create(context.Background(), &pb.Dataset{Dimension: dim, Space: pb.Space_Euclidean, PartitionCount: 2, ReplicationFactor: 3})
+		if err != nil {
+			return "", nil, false
+		}
+		m := c14FromPb(d.Meta())
+		var parts []string
+		for _, p := range m.Parts {
+			parts = append(parts, p.Id)
+		}
+		return m.Id, parts, true
+	}
+	idA, partsA, ok := create(2)
+	if !ok || !waitAll(idA, 1, 2, 3) {
+		st.count("lagging:setup-failed")
+		return
+	}
+	w.settle(5 * time.Second)
+	w.stop(w.nodes[3])
+	delete(w.members, 3) // for settle: member 3 is down
+	w.settle(10 * time.Second)
+	l := w.leader()
+	if l == nil {
+		st.count("lagging:setup-failed")
+		return
+	}
+	if err := l.srv.VerifDatasetManager().Delete(context.Background(), mustUUID(idA)); err != nil {
+		st.count("lagging:delete-refused")
+		return
+	}
+	idB := ""
+	if c.Cut == 1 {
+		if idB, _, ok = create(3); !ok {
+			st.count("lagging:setup-failed")
+			return
+		}
+	}
+	w.settle(10 * time.Second)
+	for _, i := range []int{1, 2} {
+		s := w.nodes[i].srv.VerifZeroGroup().VerifStatus()
+		w.nodes[i].srv.VerifZeroGroup().VerifSnapshotNow(s.Applied, 0)
+	}
+	if c.Cut == 0 {
+		if idB, _, ok = create(3); !ok {
+			st.count("lagging:setup-failed")
+			return
+		}
+	}
+	if !waitAll(idB, 1, 2) {
+		fail(fmt.Sprintf("after the acknowledged deletion of %s and creation of %s members 1 and 2 list [%s] and [%s]", idA, idB, lists(w.nodes[1]), lists(w.nodes[2])), "catalogue-differs-between-members")
+		return
+	}
+	w.members[3] = true
+	if err := w.start(w.nodes[3], true); err != nil || w.nodes[3].srv == nil {
+		st.count("lagging:restart-failed")
+		return
+	}
+	if !waitAll(idB, 3) {
+		fail(fmt.Sprintf("member 3 was down while dataset %s was deleted (acknowledged) and the others compacted their logs (snapshot of a catalogue with %d datasets); back up, it lists [%s], members 1 and 2 list [%s]", idA, c.Cut, lists(w.nodes[3]), lists(w.nodes[1])), "lagging-member-keeps-deleted-dataset")
+		return
+	}
+	time.Sleep(300 * time.Millisecond)
+	for _, gid := range w.nodes[3].srv.VerifZeroGroup().VerifTransport().VerifGroupIds() {
+		for _, p := range partsA {
+			if uuid.UUID(gid).String() == p {
+				fail(fmt.Sprintf("member 3 still runs the raft group of partition %s of the deleted dataset %s", p, idA), "deleted-dataset-still-serving")
+				return
+			}
+		}
+	}
+	st.count("lagging:ok")
 }
